@@ -418,9 +418,18 @@ def c_conv(g):
     return lambda rng: call('convert', g(rng))
 
 
-def c_calc(rng):
-    return call('calculate', g_simple(rng, frac=False), rng.randint(2, 6),
-                prev_gains=g_gains(rng, hi=3), **({'max_seats': g_caps(rng)} if rng.random() < 0.2 else {}))
+def c_calc(rng, caps=True):
+    v = g_simple(rng, frac=False)
+    cs = [c for c, _ in v['D']]
+    return call('calculate', v, rng.randint(2, 6),
+                prev_gains=g_gains(rng, cs, hi=3), **({'max_seats': g_caps(rng)} if caps and rng.random() < 0.2 else {}))
+
+
+def _c_calc_const(rng):
+    cs = g_cands(rng, 2, 3)
+    v = g_const(rng, lambda r: g_simple(r, cs, frac=False))
+    pg = D([(d, g_gains(rng, cs, hi=2)) for d, _ in v['D'] if rng.random() < 0.8])
+    return call('calculate', v, rng.randint(3, 6), prev_gains=pg)
 
 
 # ------------------------------------------------------------------------------------------------
@@ -488,10 +497,9 @@ def _targets():
     add('AdjustedSeatCount:level', lambda: vcore.AdjustedSeatCount(vcore.LevelOverhang(HA()), HA()),
         lambda rng: call('evaluate', g_simple(rng, frac=False), rng.randint(2, 6), prev_gains=g_gains(rng, hi=3)))
     add('AllowOverhang', lambda: vcore.AllowOverhang(HA()), c_calc)
-    add('LevelOverhang', lambda: vcore.LevelOverhang(HA()), c_calc)
+    add('LevelOverhang', lambda: vcore.LevelOverhang(HA()), lambda rng: c_calc(rng, caps=False))
     add('LevelOverhangByConstituency', lambda: vcore.LevelOverhangByConstituency(vcore.ByConstituency(HA()), HA()),
-        lambda rng: call('calculate', g_const(rng, lambda r: g_simple(r, frac=False)), rng.randint(2, 5),
-                         prev_gains=g_nested_gains(rng)))
+        _c_calc_const)
     add('SeatCountCalculator', lambda: vcore.SeatCountCalculator(), c_calc)
     add('PostConverted', lambda: vcore.PostConverted(vcore.Plurality(), vconv.SelectionToDistribution()), c_eval_simple_sel)
     add('PreConverted', lambda: vcore.PreConverted(vconv.RankedToFirstPreference(), vcore.Plurality()), c_eval_ranked_noshared)
@@ -1034,23 +1042,24 @@ def oracle(case, obs):
     for i, c in enumerate(case['calls']):
         t = T[case['targets'][c['t']]]
         if not t.get('random') and obs['shared'][i] != obs['fresh'][i]:
-            out.append(('history_dependent',
+            out.append((f"history_dependent:{t['name']}",
                         f"call {i} on shared {t['name']}: {json.dumps(obs['shared'][i])[:160]} but on a fresh instance "
                         f"{json.dumps(obs['fresh'][i])[:160]}"))
             break
     for i, c in enumerate(case['calls']):
         t = T[case['targets'][c['t']]]
         if t.get('seed') is not None and obs['repeat'][i] != obs['fresh'][i]:
-            out.append(('unseeded_nondeterminism',
+            out.append((f"unseeded_nondeterminism:{t['name']}",
                         f"call {i} on {t['name']} (seed {t['seed']}): {json.dumps(obs['fresh'][i])[:120]} then "
                         f"{json.dumps(obs['repeat'][i])[:120]}"))
             break
     if obs['mutated']:
         m = obs['mutated'][0]
-        out.append(('argument_mutated', f"call {m['call']} ({m['run']} {m['target']}): arguments "
+        out.append((f"argument_mutated:{m['target']}", f"call {m['call']} ({m['run']} {m['target']}): arguments "
                     f"{json.dumps(m['before'])[:200]} became {json.dumps(m['after'])[:200]}"))
     if obs['defaults']:
-        out.append(('shared_default_polluted', '; '.join(f'{q}: {w}' for q, w in obs['defaults'][:3])))
+        q0 = obs['defaults'][0][0]
+        out.append((f'shared_default_polluted:{q0}', '; '.join(f'{q}: {w}' for q, w in obs['defaults'][:3])))
     return out
 
 
